@@ -44,11 +44,15 @@ def repo_state():
 def coq_stage(prop, tier):
     """full .vo build, forbidden-token audit, re-check of props/<prop>.v with Print Assumptions"""
     info = {"obligations": 0, "discharged": 0, "axioms": [], "ok": False, "log": "", "theorems": []}
+    # translator tie: regenerate theories/PySrc.v from the CURRENT sources of /repo (fail closed on unsupported syntax);
+    # PySrcFacts.v is then re-checked against the regenerated text by the build below
+    rc0, out0 = sh("python3 tools/py2coq.py 2>&1", 120, VERIF)
+    translator_ok = (rc0 == 0)
     if tier == "thorough":
         sh("make -C coq clean >/dev/null 2>&1; rm -f coq/props/*.vo coq/theories/*.vo", 120, VERIF)
     rc, out = sh("cd coq && (test -f Makefile || coq_makefile -f _CoqProject -o Makefile >/dev/null 2>&1); timeout 1500 make -j16 2>&1 | grep -v '^Warning' | tail -30", 1600, VERIF)
-    info["log"] = out[-3000:]
-    build_ok = (rc == 0 and "Error" not in out)
+    info["log"] = ("" if translator_ok else "tools/py2coq.py failed: " + out0[-1500:] + "\n") + out[-3000:]
+    build_ok = (rc == 0 and "Error" not in out and translator_ok)
     # audit
     bad = []
     for sub in ("theories", "props"):
@@ -156,7 +160,7 @@ def main():
         try:
             for m in mods:
                 if hasattr(m, "load_corpus"):
-                    m.load_corpus = lambda pid, _c=cases: [dict(c) for c in _c]
+                    m.load_corpus = lambda pid, raw=False, _c=cases: [dict(c) for c in _c if raw or "pysrc_seed" not in c]
                 if hasattr(m, "_sizes"):
                     m._sizes = lambda tier, q, t: 0
             os.environ["VERIF_ONLY_CORPUS"] = "1"
